@@ -11,6 +11,12 @@ type diffEvent struct {
 	Obs run.DiffObs `json:"obs"`
 }
 
+type focusEvent struct {
+	Ev  string      `json:"ev"`
+	W   string      `json:"W"`
+	Obs run.ListObs `json:"obs"`
+}
+
 type evalEvent struct {
 	Ev  string      `json:"ev"`
 	Obs run.EvalObs `json:"obs"`
@@ -21,6 +27,27 @@ func runExtraOps(em *emitter, dir, wdir string, c Case, conc *world.Conc, cseed 
 	w := c.World
 	if ops["eval"] {
 		em.emit(evalEvent{Ev: "Eval", Obs: run.EvalAPI(wdir, w, conc, cseed, 40)})
+	}
+	if ops["focus"] {
+		cands := []string{"nosuch", "ingress-controller"}
+		for i := range w.Workloads {
+			wl := &w.Workloads[i]
+			cands = append(cands, wl.Name, wl.NS+"/"+wl.Name)
+			if i == 0 {
+				cands = append(cands, "nsx/"+wl.Name, wl.NS+"/nosuch")
+			}
+		}
+		seen := map[string]bool{}
+		n := 0
+		for k, W := range cands {
+			if seen[W] || (n >= 7 && (k+c.ID)%3 != 0) {
+				continue
+			}
+			seen[W] = true
+			n++
+			obs, _, _ := run.List(wdir, w, conc, run.ListOpts{Focus: W})
+			em.emit(focusEvent{Ev: "Focus", W: W, Obs: obs})
+		}
 	}
 	if ops["diff"] {
 		if c.Chain && gs.prevDir != "" {
